@@ -327,6 +327,10 @@ def _compare(interp, sym, a, b):
         r = _identity(a, b)
         if r is True:
             return K(True)
+        for x, y in ((a, b), (b, a)):
+            if isinstance(x, Obj) and isinstance(x.fields.get('__eq__'),
+                                                 AbsFunc):
+                return interp.call(x.fields['__eq__'], [y])
         if isinstance(a, (Obj, FuncRef, ClassRef)) and \
                 isinstance(b, (Obj, FuncRef, ClassRef)):
             if isinstance(a, Obj) and a.cls is not None and \
@@ -1496,6 +1500,23 @@ def b_parse_qsl(interp, args, kwargs):
     return NotImplemented
 
 
+def b_groupby(interp, args, kwargs):
+    if not isinstance(args[0], (ListV, TupleV)):
+        return NotImplemented
+    keyf = args[1] if len(args) > 1 else kwargs.get('key')
+    out = []
+    last = None
+    for item in args[0].items:
+        k = interp.call(keyf, [item]) if keyf is not None else item
+        if out and isinstance(_compare(interp, '==', last, k), K) and \
+                _compare(interp, '==', last, k).v:
+            out[-1].items[1].items.append(item)
+        else:
+            out.append(TupleV([k, ListV([item])]))
+            last = k
+    return ListV(out)
+
+
 def b_operator(sym):
     def f(interp, args, kwargs):
         if len(args) != 2:
@@ -1523,6 +1544,7 @@ BUILTINS = {
     'math.ceil': b_math_ceil, 'pow': b_pow, 'map': b_map,
     'functools.reduce': b_reduce, 'divmod': b_divmod,
     'sys.exc_info': b_exc_info, 'format': b_format,
+    'itertools.groupby': b_groupby,
     'urllib.parse.parse_qsl': b_parse_qsl,
     'round': b_pure('round'),
     'operator.lt': b_operator('lt'), 'operator.le': b_operator('le'),
